@@ -239,6 +239,8 @@ def ser_cases(tier):
 # -- enums and decimals -------------------------------------------------------------------------
 
 DECIMALS = ["0", "-0", "1.50", "1E+3", "-12.345", "0.000001", "123456789012345678901234567890"]
+# instances of slotted standard-library classes that travel as beans (module-qualified, slots, no-argument constructor)
+STDLIB = ["fractions.Fraction(1, 3)", "fractions.Fraction(-7, 2)", "fractions.Fraction(0)"]
 
 
 def singleton_cases(tier):
@@ -252,6 +254,10 @@ def singleton_cases(tier):
         for ctx in CONTEXTS:
             for path in PATHS:
                 yield ("decimal", d, ctx, path)
+    for x in STDLIB:
+        for ctx in CONTEXTS:
+            for path in PATHS:
+                yield ("stdlib", x, ctx, path)
 
 
 def check_singleton(case):
@@ -261,6 +267,9 @@ def check_singleton(case):
         mod = classgen.enums()
         cname, mname = name.split(".")
         o = getattr(getattr(mod, cname), mname)
+    elif kind == "stdlib":
+        import fractions
+        o = eval(name, {"fractions": fractions})
     else:
         o = decimal.Decimal(name)
     cfg = Config(version=2.0)
@@ -271,6 +280,9 @@ def check_singleton(case):
     if kind == "enum":
         if o2 is not o:
             out.bad("C07/enum/member-differs", "%s in %s via %s came back as %r" % (name, ctx, path, o2))
+    elif kind == "stdlib":
+        if type(o2) is not type(o) or o2 != o:
+            out.bad("C07/stdlib-object/value-differs", "%s in %s via %s came back as %r" % (name, ctx, path, o2))
     elif type(o2) is not decimal.Decimal or str(o2) != str(o):
         out.bad("C07/decimal/value-differs", "Decimal(%s) in %s via %s came back as %r" % (name, ctx, path, o2))
     return out
@@ -340,7 +352,7 @@ META = {
     "again with class names that start with one or two underscores; values: 13 representative "
     "hierarchies x each field over 17 values (primitives, containers, and values of subclass types: OrderedDict, Counter, dict/list/str/int subclasses, namedtuple) (all pairs for 2-field classes) x 8 contexts (top, containers, beans, 40 levels deep) x 6 paths (dump/load, dumps/loads, RPC parameter and result under "
     "1.0 and 2.0) x module-qualified / locally registered; serialize: serialisation-method classes (list args, dict args, custom method name) x 8 "
-    "attribute values x contexts x paths; singletons: 5 enum members and 7 Decimals x contexts x paths; histories: every sequence of 3 (thorough 4) round trips "
+    "attribute values x contexts x paths; singletons: 5 enum members, 7 Decimals and 3 fractions.Fraction objects (a slotted standard-library class) x contexts x paths; histories: every sequence of 3 (thorough 4) round trips "
     "over 4 classes x {module-qualified, local in a table of its own, local re-registered under the same bare name in the shared table (newest registration wins)}; every case is non-trivial",
     "bounds": {"quick": {"depth": 2, "fields_per_level": 2}, "thorough": {"depth": 3, "fields_per_level": 2}},
     "assumptions": [
